@@ -7,6 +7,7 @@
 -/
 import GormModel.Model.WriteSet
 import GormModel.Lemmas.WriteSet
+import GormModel.Gen.WriteGuards
 namespace Gorm
 open Gorm.WriteSet
 
@@ -495,6 +496,204 @@ theorem C10_selectRows_spec (conds : List Col) (key : RowV) (rows : List RowV) (
       | succ j =>
         right
         exact ⟨j, r', by omega, by simpa using hj, hm⟩
+
+/-! ### writes WITHOUT a schema (`db.Table("t")` + map, no model) — "Select/Omit narrow or widen these sets" must hold
+    whether or not a schema is known -/
+
+/-- without a schema EVERY non-empty Select list restricts the write: `SelectAndOmitColumns` reports
+    `restricted = len(Selects) > 0` (no early "not restricted" exit, no `*` arm) -/
+theorem C10_noschema_restricted (sel om : List Col) (rc ru : Bool) :
+    (selectAndOmitO none sel om rc ru).2 = !sel.isEmpty ∧
+    ∀ c, (selectAndOmitO none sel om rc ru).1.lookup c =
+      if c ∈ om then some false else if c ∈ sel then some true else none :=
+  ⟨selectAndOmitO_none_restricted sel om rc ru, selectAndOmitO_none_lookup sel om rc ru⟩
+
+/-- schema-less `Table(t).Updates(map)` / `Update` / `UpdateColumn(s)`: the SET list is EXACTLY the given keys
+    (zero / nil values included, in `sort.Strings` order) that are not omitted and — when a Select list is present —
+    are selected; nothing is added (no tracked column is known), hooks or not -/
+theorem C10_noschema_map_exact (sel om : List Col) (sh : Bool) (keys : List (Col × Bool)) :
+    assignmentsOfMapO none sel om sh keys =
+      (keys.map (·.1)).filter fun k => !decide (k ∈ om) && (decide (k ∈ sel) || sel.isEmpty) := by
+  unfold assignmentsOfMapO
+  simp only [allowedO_none_spec]
+  induction keys with
+  | nil => rfl
+  | cons kv t ih =>
+    simp only [List.filterMap_cons, List.map_cons, List.filter_cons, ih]
+    by_cases hp : (!decide (kv.1 ∈ om) && (decide (kv.1 ∈ sel) || sel.isEmpty)) = true
+    · simp only [hp, if_true]
+    · simp only [hp, if_false]; rfl
+
+/-- schema-less `Table(t).Create(map)`: the INSERT column list is exactly the given keys passing Select/Omit -/
+theorem C10_noschema_create_exact (sel om : List Col) (keys : List Col) :
+    createColumnsMapO none sel om keys =
+      keys.filter fun k => !decide (k ∈ om) && (decide (k ∈ sel) || sel.isEmpty) := by
+  unfold createColumnsMapO
+  simp only [allowedO_none_spec]
+
+/-- … and for a slice of maps every accepted column of every row passes the same test -/
+theorem C10_noschema_create_maps (sel om : List Col) (rows : List (List Col)) (c : Col)
+    (h : c ∈ createColumnsMapsO none sel om rows) :
+    c ∉ om ∧ (c ∈ sel ∨ sel = []) ∧ ∃ r ∈ rows, c ∈ r := by
+  unfold createColumnsMapsO at h
+  simp only [List.mem_flatMap] at h
+  rcases h with ⟨r, hr, h⟩
+  rw [C10_noschema_create_exact, List.mem_filter] at h
+  have h2 := h.2
+  simp only [Bool.and_eq_true, Bool.not_eq_true', decide_eq_false_iff_not, Bool.or_eq_true, decide_eq_true_eq,
+    List.isEmpty_iff] at h2
+  exact ⟨h2.1, h2.2, r, hr, h.1⟩
+
+/-- SELECT NARROWS, schema known or not, every map update path: under a restricting Select a column of the SET list
+    is named by the Select list (as `processColumn` resolves it) — or it is a tracked update-time column of a
+    hook-running update on a statement that has a schema -/
+theorem C10_select_narrows_any (o : Option Schema) (sel om : List Col) (sh : Bool) (keys : List (Col × Bool)) (c : Col)
+    (hr : (selectAndOmitO o sel om false true).2 = true)
+    (h : c ∈ assignmentsOfMapO o sel om sh keys) :
+    (c ∈ keysOfO o sel ∧ c ∉ keysOfO o om) ∨
+      (sh = false ∧ ∃ s f, o = some s ∧ f ∈ s.fields ∧ f.autoUpdateTime = true ∧ f.dbName = c) := by
+  cases o with
+  | none =>
+    left
+    rw [C10_noschema_map_exact, List.mem_filter] at h
+    rw [selectAndOmitO_none_restricted] at hr
+    have h2 := h.2
+    simp only [Bool.and_eq_true, Bool.not_eq_true', decide_eq_false_iff_not, Bool.or_eq_true,
+      decide_eq_true_eq] at h2
+    rw [keysOfO_none, keysOfO_none]
+    rcases h2.2 with h3 | h3
+    · exact ⟨h3, h2.1⟩
+    · rw [h3] at hr; cases hr
+  | some s =>
+    rw [selectAndOmitO_some] at hr
+    simp only [assignmentsOfMapO] at h
+    unfold assignmentsOfMap at h
+    simp only [List.mem_append, List.mem_filterMap] at h
+    rcases h with ⟨kv, _, h⟩ | h
+    · left
+      rw [keysOfO_some, keysOfO_some]
+      split at h
+      · split at h
+        · split at h
+          · rename_i ha; injection h with h; subst h; exact lookup_true_selected (allowed_restricted ha hr)
+          · cases h
+        · cases h
+      · split at h
+        · rename_i ha; injection h with h; subst h; exact lookup_true_selected (allowed_restricted ha hr)
+        · cases h
+    · right
+      split at h
+      · cases h
+      · rename_i hsh
+        simp only [List.mem_filterMap] at h
+        rcases h with ⟨db, _, h⟩
+        split at h
+        · rename_i f hl
+          split at h
+          · rename_i hc; injection h with h
+            simp only [Bool.and_eq_true] at hc
+            exact ⟨by simpa using hsh, s, f, rfl, lookUpField_mem hl, hc.1.1.1, h⟩
+          · cases h
+        · cases h
+
+/-- OMIT REMOVES, schema known or not: a column named by the Omit list is never in the SET list of a map update
+    nor in the INSERT column list of a map create -/
+theorem C10_omit_removes_any (o : Option Schema) (sel om : List Col) (sh : Bool) (keys : List (Col × Bool))
+    (ckeys : List Col) (c : Col) (ho : c ∈ keysOfO o om) :
+    c ∉ assignmentsOfMapO o sel om sh keys ∧ c ∉ createColumnsMapO o sel om ckeys := by
+  cases o with
+  | none =>
+    rw [keysOfO_none] at ho
+    rw [C10_noschema_map_exact, C10_noschema_create_exact]
+    constructor <;> (intro h; rw [List.mem_filter] at h; simp [ho] at h)
+  | some s =>
+    rw [keysOfO_some] at ho
+    have hl : ∀ rc ru, (selectAndOmit s sel om rc ru).1.lookup c = some false := by
+      intro rc ru
+      rw [selectAndOmit_lookup]
+      by_cases hd : deniedKey s rc ru c = true <;> simp [hd, ho]
+    exact ⟨fun h => C10_map_guarded s sel om sh keys c h (hl false true),
+           fun h => C10_createmap_guarded s sel om ckeys c h (hl true false)⟩
+
+/-- SELECT NARROWS on map creates, schema known or not -/
+theorem C10_select_narrows_create_any (o : Option Schema) (sel om : List Col) (keys : List Col) (c : Col)
+    (hr : (selectAndOmitO o sel om true false).2 = true)
+    (h : c ∈ createColumnsMapO o sel om keys) : c ∈ keysOfO o sel ∧ c ∉ keysOfO o om := by
+  cases o with
+  | none =>
+    rw [C10_noschema_create_exact, List.mem_filter] at h
+    rw [selectAndOmitO_none_restricted] at hr
+    have h2 := h.2
+    simp only [Bool.and_eq_true, Bool.not_eq_true', decide_eq_false_iff_not, Bool.or_eq_true,
+      decide_eq_true_eq] at h2
+    rw [keysOfO_none, keysOfO_none]
+    rcases h2.2 with h3 | h3
+    · exact ⟨h3, h2.1⟩
+    · rw [h3] at hr; cases hr
+  | some s =>
+    rw [selectAndOmitO_some] at hr
+    simp only [createColumnsMapO] at h
+    unfold createColumnsMap at h
+    simp only [List.mem_filterMap] at h
+    rcases h with ⟨k, _, h⟩
+    rw [keysOfO_some, keysOfO_some]
+    split at h <;> split at h
+    · rename_i ha; injection h with h; subst h; exact lookup_true_selected (allowed_restricted ha hr)
+    · cases h
+    · rename_i ha; injection h with h; subst h; exact lookup_true_selected (allowed_restricted ha hr)
+    · cases h
+
+/-- a schema-less write never carries a key condition of its own (no model value, no identity lookup) and never
+    expands `UpdateAll`: the rows hit are those of the chain's conditions only -/
+theorem C10_noschema_no_own_conditions (mnz nz : List Col) (hm : Bool) (sel om cols : List Col) :
+    modelCondsO none mnz = [] ∧ deleteCondsO none nz mnz hm = [] ∧ upsertAssignmentsO none sel om cols = [] :=
+  ⟨rfl, rfl, rfl⟩
+
+/-- `Table("t").Select("name").Updates(map{age, name})` → `SET name`; with Omit("name") → `SET age`; no Select → both -/
+example : assignmentsOfMapO none ["name".toList] [] false [("age".toList, false), ("name".toList, false)] = ["name".toList] ∧
+    assignmentsOfMapO none [] ["name".toList] false [("age".toList, false), ("name".toList, false)] = ["age".toList] ∧
+    assignmentsOfMapO none [] [] true [("age".toList, false), ("name".toList, true)] = ["age".toList, "name".toList] ∧
+    createColumnsMapO none ["name".toList] [] ["age".toList, "name".toList] = ["name".toList] ∧
+    (selectAndOmitO none [star] [] false true).2 = true := by decide
+
+/-! ### regenerated facts (extract/gen_c10.go → Gen/WriteGuards.lean): the code still has the shape the model transcribes -/
+
+/-- `Statement.SelectAndOmitColumns` has ONE exit, which computes `restricted` as `!notRestricted && len(Selects) > 0`
+    (`selectAndOmit(O)`'s last line); `notRestricted` starts `false` and is only written by the `*` arm; processColumn
+    tests `stmt.Schema == nil` FIRST (`processColumnO`) and has the six arms of `resolve`; the permission loop is the
+    only other place looking at the schema -/
+theorem C10_gen_sao_shape :
+    Gen.WriteGuards.saoReturns = ["results, !notRestricted && len(stmt.Selects) > 0"] ∧
+    Gen.WriteGuards.saoArms = ["stmt.Schema == nil", "column == \"*\"", "column == clause.Associations",
+      "field := stmt.Schema.LookUpField(column); field != nil && field.DBName != \"\"",
+      "table, col := matchName(column); col != \"\" && (table == stmt.Table || table == \"\")", "else"] ∧
+    Gen.WriteGuards.saoFlagWrites = [("", "notRestricted := false"), ("column == \"*\"", "notRestricted = result")] ∧
+    Gen.WriteGuards.saoSchemaGuards = ["stmt.Schema == nil", "stmt.Schema != nil"] := by decide
+
+/-- the admission forms the model transcribes: `allowed` · the map branch's auto-update-time test (`lookup ≠ some false`) ·
+    `structWrites`' guard · `createWrites` · `createWritesDefault` (struct) -/
+def admissionForms : List String := [
+  "(ok && v) || (!ok && !restricted)",
+  "(ok && v) || !ok",
+  "(ok && v) || (!ok && (!restricted || (!stmt.SkipHooks && field.AutoUpdateTime > 0)))",
+  "(ok && v) || (!ok && (!restricted || field.AutoCreateTime > 0 || field.AutoUpdateTime > 0))",
+  "(ok && v) || (!ok && !restricted) && field.DefaultValueInterface == nil"]
+
+/-- every `if v, ok := selectColumns[…]; cond` of the write path (ConvertToAssignments, ConvertToCreateValues, the two
+    map-create helpers) admits a column by one of these forms, site by site as the model functions have them; and each
+    path asks `SelectAndOmitColumns` with ITS (requireCreate, requireUpdate) pair -/
+theorem C10_gen_admission :
+    (∀ t ∈ Gen.WriteGuards.admissionTests, t.2.2 ∈ admissionForms) ∧
+    Gen.WriteGuards.admissionTests.map (fun t => (t.1, t.2.2)) = [
+      ("ConvertToCreateValues", admissionForms[3]), ("ConvertToCreateValues", admissionForms[0]),
+      ("ConvertToCreateValues", admissionForms[4]), ("ConvertToCreateValues", admissionForms[0]),
+      ("ConvertMapToValuesForCreate", admissionForms[0]), ("ConvertSliceOfMapToValuesForCreate", admissionForms[0]),
+      ("ConvertToAssignments", admissionForms[0]), ("ConvertToAssignments", admissionForms[0]),
+      ("ConvertToAssignments", admissionForms[0]), ("ConvertToAssignments", admissionForms[1]),
+      ("ConvertToAssignments", admissionForms[2])] ∧
+    Gen.WriteGuards.saoCallers = [("ConvertToCreateValues", "true, false"), ("ConvertToCreateValues", "true, true"),
+      ("ConvertMapToValuesForCreate", "true, false"), ("ConvertSliceOfMapToValuesForCreate", "true, false"),
+      ("ConvertToAssignments", "false, true")] := by decide
 
 /-! ### non-vacuity and concrete instances (kernel-evaluated) -/
 
